@@ -1,0 +1,97 @@
+//go:build verif
+
+// Contracts for package dialer, read by /verif/govc (comment-only file).
+
+package dialer
+
+// ---------------------------------------------------------------------------------------------
+// C16: node health thresholds and edge-triggered reporting (sequential semantics: the per-dialer
+// lock and the atomics are plain memory; the state a function publishes is asserted at the point
+// where it releases collectionFineMu, i.e. where every other party may look).
+
+//@ func (HealthKey).CollectionIndex
+//@   vpure
+//@   maypanic
+//@   ensures 2 <= result && result < 8
+//@   ensures result == IdxTcp4 ==> k.Domain == HealthDomainTCP && k.IpVersion == consts.IpVersionStr_4
+//@   ensures result == IdxTcp6 ==> k.Domain == HealthDomainTCP && k.IpVersion == consts.IpVersionStr_6
+//@   ensures result == IdxDnsUdp4 ==> k.Domain == HealthDomainDnsUDP && k.IpVersion == consts.IpVersionStr_4
+//@   ensures result == IdxDnsUdp6 ==> k.Domain == HealthDomainDnsUDP && k.IpVersion == consts.IpVersionStr_6
+//@   ensures result == IdxUdp4 ==> k.Domain == HealthDomainDataUDP && k.IpVersion == consts.IpVersionStr_4
+//@   ensures result == IdxUdp6 ==> k.Domain == HealthDomainDataUDP && k.IpVersion == consts.IpVersionStr_6
+
+//@ func (*NetworkType).Index
+//@   pure
+//@   trusted
+//@   ensures 2 <= result && result < 8
+
+//@ func proxyFailureSuppressedForReload
+//@   pure
+//@   trusted
+//@ func (*Dialer).snapshotAliveDialerGroupsLocked
+//@   trusted
+//@ func (*Dialer).notifyAliveTransition
+//@   trusted
+//@ func (*LatenciesN).AppendLatency
+//@   trusted
+//@ func (*LatenciesN).AvgLatency
+//@   trusted
+
+// thr: the documented thresholds (1 failed TCP probe, 3 failed UDP probes, 10 TCP / 50 UDP traffic failures)
+//@ macro thr(typ *NetworkType, isTraffic bool) = typ.L4Proto == consts.L4ProtoStr_UDP ? (isTraffic ? 50 : 3) : ((typ.L4Proto == consts.L4ProtoStr_TCP && isTraffic) ? 10 : 1)
+//@ macro aliveOf(d *Dialer, i int) = d.collections[i].Alive.Load()
+//@ macro tfc(d *Dialer, i int) = d.trafficFailCount[i].Load()
+
+//@ func (*Dialer).markUnavailableInternal
+//@   nonilcheck
+//@   modifies *
+//@   let i() = old(typ.Index())
+//@   let sup() = old(proxyFailureSuppressedForReload())
+//@   requires forall a int, b int :: 0 <= a && a < b && b < 8 ==> d.collections[a] != d.collections[b]
+//@   requires 0 <= d.failCount[typ.Index()] && d.failCount[typ.Index()] < 1000000000 && 0 <= tfc(d, typ.Index()) && tfc(d, typ.Index()) < 1000000000
+//@   at call Unlock#1 assert !force && sup() && d.failCount[i()] == old(d.failCount[i()]) && tfc(d, i()) == old(tfc(d, i())) && aliveOf(d, i()) == old(aliveOf(d, i()))
+//@   at call Unlock#2 assert force ==> !aliveOf(d, i()) && d.failCount[i()] == thr(typ, isTraffic) && tfc(d, i()) == thr(typ, isTraffic)
+//@   at call Unlock#2 assert !force && isTraffic ==> !sup() && tfc(d, i()) == old(tfc(d, i())) + 1 && d.failCount[i()] == old(d.failCount[i()]) && (aliveOf(d, i()) <==> (old(aliveOf(d, i())) && tfc(d, i()) < thr(typ, isTraffic)))
+//@   at call Unlock#2 assert !force && !isTraffic ==> !sup() && d.failCount[i()] == old(d.failCount[i()]) + 1 && tfc(d, i()) == old(tfc(d, i())) && (aliveOf(d, i()) <==> (old(aliveOf(d, i())) && d.failCount[i()] < thr(typ, isTraffic)))
+//@   at call Unlock#2 assert forall j int :: 0 <= j && j < 8 && j != i() ==> d.failCount[j] == old(d.failCount[j]) && tfc(d, j) == old(tfc(d, j)) && aliveOf(d, j) == old(aliveOf(d, j))
+//@   at call notifyAliveTransition#1 assert a2 != old(aliveOf(d, i())) && a2 == aliveOf(d, i())
+//@   at call NotifyHealthCheckResult#1 assert !force && old(aliveOf(d, i())) && !a2 && !a3
+//@   ensures !force && sup() ==> result.alive == old(aliveOf(d, i())) && calls("notifyAliveTransition") == 0 && calls("NotifyHealthCheckResult") == 0
+//@   ensures force || !sup() ==> calls("notifyAliveTransition") == (old(aliveOf(d, i())) != result.alive ? 1 : 0)
+//@   ensures force || !sup() ==> calls("NotifyHealthCheckResult") == (old(aliveOf(d, i())) && !result.alive && !force ? 1 : 0)
+
+//@ func (*Dialer).markAvailable
+//@   nonilcheck
+//@   modifies *
+//@   let i() = old(typ.Index())
+//@   requires forall a int, b int :: 0 <= a && a < b && b < 8 ==> d.collections[a] != d.collections[b]
+//@   at call Unlock#1 assert d.failCount[i()] == 0 && tfc(d, i()) == 0 && aliveOf(d, i())
+//@   at call Unlock#1 assert forall j int :: 0 <= j && j < 8 && j != i() ==> d.failCount[j] == old(d.failCount[j]) && tfc(d, j) == old(tfc(d, j)) && aliveOf(d, j) == old(aliveOf(d, j))
+//@   at call NotifyHealthCheckResult#1 assert a2 && (a3 <==> !old(aliveOf(d, i())))
+//@   ensures result0.alive
+//@   ensures calls("NotifyHealthCheckResult") == 1
+//@   ensures calls("notifyAliveTransition") == (old(aliveOf(d, i())) ? 0 : 1)
+
+//@ func (*Dialer).markAvailableTraffic
+//@   nonilcheck
+//@   modifies *
+//@   let i() = old(typ.Index())
+//@   requires forall a int, b int :: 0 <= a && a < b && b < 8 ==> d.collections[a] != d.collections[b]
+//@   at call Unlock#1 assert d.failCount[i()] == 0 && tfc(d, i()) == 0 && aliveOf(d, i())
+//@   at call Unlock#1 assert forall j int :: 0 <= j && j < 8 && j != i() ==> d.failCount[j] == old(d.failCount[j]) && tfc(d, j) == old(tfc(d, j)) && aliveOf(d, j) == old(aliveOf(d, j))
+//@   at call NotifyHealthCheckResult#1 assert a2 && (a3 <==> !old(aliveOf(d, i())))
+//@   ensures result.alive
+//@   ensures calls("NotifyHealthCheckResult") == 1
+//@   ensures calls("notifyAliveTransition") == (old(aliveOf(d, i())) ? 0 : 1)
+
+// "any successful probe clears the counts": every success clears the per-address death count
+// (recordProxySuccess is called exactly once per success for a node with an address), and the
+// escalation counter is only fed by failures.
+//@ func (*Dialer).NotifyHealthCheckResult
+//@   nonilcheck
+//@   modifies *
+//@   ensures calls("recordProxySuccess") == (success && old(d.property.Address) != "" ? 1 : 0)
+//@   ensures calls("recordProxyFailure") <= (!success && old(d.property.Address) != "" ? 1 : 0)
+//@   ensures calls("triggerRecoveryDetection") == (success && isRevival ? 1 : 0)
+//@   ensures success ==> calls("markUnavailableFromProxyFailure") == 0 && calls("incrementBackoffLevelForType") == 0
+//@   ensures !success ==> calls("incrementBackoffLevelForType") == 1 && calls("resetStabilityCountForType") == 1 && calls("cancelPendingRecoveryConfirmationForType") == 1
